@@ -510,7 +510,9 @@ pub fn c11_filter_adjacency_map_n2() {
 }
 
 // AdjacencyList::union of every order-1 with every order-2 digraph, 2 worker threads.
-// @verif prop=C11 tier=quick fl=f2 role=union/adjacency-list t=1500 mem=16
+// (thorough only: CBMC reports a "misaligned pointer to reference cast" in slice::from_raw_parts on this
+// path that neither a native run nor Miri confirms; the run then ends inconclusive, exit 2.)
+// @verif prop=C11 tier=thorough fl=f2 role=union/adjacency-list t=1500 mem=24
 #[cfg_attr(kani, kani::proof)]
 #[cfg_attr(kani, kani::unwind(8))]
 pub fn c11_union_adjacency_list_n1_m2_t2() {
